@@ -83,7 +83,8 @@ def ck_term(c):
 class CRunner:
     def __init__(self, kind, connect_disconnects=False, disc_raises=False, disconnect_disconnects=False):
         self.kind = kind
-        self.d = crt.CDRIVERS[kind](request_timeout=REQ_TIMEOUT)
+        # (the asyncio client makes and closes its own HTTP session, as it does when the application does not supply one)
+        self.d = crt.CDRIVERS[kind](request_timeout=REQ_TIMEOUT, **(dict(own_session=True) if kind == 'asyncio' else {}))
         self.d.connect_action = 'disconnect' if connect_disconnects else None
         self.d.disconnect_raises = disc_raises
         self.connect_disconnects = connect_disconnects
@@ -135,7 +136,7 @@ class CRunner:
                 d.reply(h, r[1], b'{"message":"no"}')
                 t = 'HStatus'
             elif r[0] == 'garbage':
-                d.reply(h, 200, [b'x\x1e4a', b'bQ', ('4a\x1e' * 17 + '4a').encode()][r[1] % 3])
+                d.reply(h, 200, [b'x\x1e4a', b'bQ', ('4a\x1e' * 17 + '4a').encode(), b'4caf\xe9'][r[1] % 4])       # ... a body that is not UTF-8
                 t = 'HGarbage'
             else:
                 d.reply(h, None)
@@ -324,7 +325,7 @@ def gen_history(rng, length=20):
             elif k < 0.82:
                 ops.append(('reply', 'GET', ('status', rng.choice([400, 401, 404, 500, 301]))))
             elif k < 0.9:
-                ops.append(('reply', 'GET', ('garbage', rng.randrange(3))))
+                ops.append(('reply', 'GET', ('garbage', rng.randrange(4))))
             else:
                 ops.append(('reply', 'GET', ('fail',)))
         elif r < 0.34:
@@ -417,7 +418,7 @@ def gen_adaptive(rng, r, length=30):
             elif k < 0.87:
                 do(('reply', 'GET', ('ok', [('open', False, False, 16, 16 + rng.randrange(4))] + pkts(rng.choice([0, 1])))))
             else:
-                do(('reply', 'GET', rng.choice([('status', 401), ('garbage', rng.randrange(3)), ('fail',), ('ok', [])])))
+                do(('reply', 'GET', rng.choice([('status', 401), ('garbage', rng.randrange(4)), ('fail',), ('ok', [])])))
         elif state == 'disconnected' and not opens and not d.pending_ws:
             if x < 0.6:
                 do(('call', 'connect', rng.choice([['polling'], ['websocket'], ['polling', 'websocket']])))
@@ -453,7 +454,7 @@ def gen_adaptive(rng, r, length=30):
                         do(('wsclose',))
                 else:
                     k = rng.random()
-                    do(('reply', 'GET', ('ok', pkts(rng.choice([1, 1, 2, 3, 16]))) if k < 0.9 else ('status', 400) if k < 0.94 else ('garbage', rng.randrange(3)) if k < 0.97 else ('fail',)))
+                    do(('reply', 'GET', ('ok', pkts(rng.choice([1, 1, 2, 3, 16]))) if k < 0.9 else ('status', 400) if k < 0.94 else ('garbage', rng.randrange(4)) if k < 0.97 else ('fail',)))
             elif x < 0.80:
                 do(('adv', rng.choice([1, 1, 4, 8, I - 1, I, T, I + T - 1, I + T, I + T + 1, max(I, T) + 39, max(I, T) + 40, max(I, T) + 41, REQ_TIMEOUT, REQ_TIMEOUT + 1])))
             elif x < 0.86:
